@@ -411,6 +411,37 @@ static C2_CIRCULANTS: [[[u16; C2Code::BLOCK_WEIGHT]; C2Code::COL_BLOCKS]; C2Code
     ],
 ];
 
+#[cfg(feature = "verif-hooks")]
+impl AR4JACode {
+    /// Verification hook: the permutation `pi_k(i)`.
+    pub fn verif_pi(&self, k: usize, i: usize) -> usize {
+        self.pi(k, i)
+    }
+
+    /// Verification hook: the submatrix size M.
+    pub fn verif_m(&self) -> usize {
+        1 << self.m().log2()
+    }
+
+    /// Verification hook: `theta_k`.
+    pub fn verif_theta(k: usize) -> usize {
+        Self::theta(k)
+    }
+
+    /// Verification hook: `phi_k(j, M)`.
+    pub fn verif_phi(&self, k: usize, j: usize) -> usize {
+        self.phi(k, j)
+    }
+}
+
+#[cfg(feature = "verif-hooks")]
+impl C2Code {
+    /// Verification hook: the circulant table.
+    pub fn verif_circulants() -> &'static [[[u16; 2]; 16]; 2] {
+        &C2_CIRCULANTS
+    }
+}
+
 #[cfg(test)]
 mod test {
     use super::*;
